@@ -124,10 +124,48 @@ def small_scripts(rng, tier):
 def big_scripts(rng, tier):
     scripts = [("N", [("gen", 12345, BUF + 12345, 300001)]),
                ("S", [("gen", 777, BUF - 1, BUF + 5), ("i",), ("d", b"0123456789"), ("i",), ("gen", 9, 7, 3)])]
+    # several whole buffers with a remainder, reads of exactly the buffer size followed by a short one, less common error kinds after
+    # more than one buffer (decided on the implementation alone against hash_buf of the delivered bytes)
+    scripts += [("N", [("gen", 21, 2 * BUF + 1, BUF)]), ("S", [("gen", 22, 2 * BUF, BUF)]), ("NL", [("gen", 23, BUF, BUF), ("gen", 24, 5, 5)]),
+                ("L", [("gen", 25, 2 * BUF + 4097, BUF - 1)]), ("LL", [("gen", 26, BUF + 77, 65536), ("e", "UnexpectedEof")]),
+                ("N", [("gen", 27, BUF, BUF), ("e", "WouldBlock"), ("gen", 28, 100, 100)]),
+                ("S", [("gen", 29, 2 * BUF, BUF), ("i",), ("e", "InvalidData")])]
+    import srcdict
+    for n in srcdict.new_literals()["ints"]:
+        if 2 <= n <= 4 * BUF:
+            for r in (-1, 0, 1):
+                scripts.append((rng.choice(VNAMES), [("gen", 31 + r, n + r, rng.choice([BUF, 4096, n + r]))]))
+                scripts.append((rng.choice(VNAMES), [("gen", 41 + r, BUF + 9, n + r if n + r > 0 else 1)]))
     if tier != "quick":
         scripts += [("L", [("gen", 1, 2 * BUF + 1, 2 * BUF)]), ("NL", [("gen", 2, BUF, BUF), ("i",), ("gen", 3, BUF + 1, BUF)]),
                     ("LL", [("gen", 4, 3 * BUF, 65536), ("e", "TimedOut")]), ("N", [("gen", 5, BUF + 1, BUF), ("lie", 1)])]
     return scripts
+
+
+def nested_cases(tier):
+    cases = []
+    for v in VNAMES:
+        for on, inn, k in ((5000, 3000, 700), (300, 300, 64), (100, 9, 50), (70000, 40, 4096)) + (((BUF + 9, 70000, BUF),) if tier != "quick" or v == "N" else ()):
+            cases.append("nested %s %d %d %d" % (v, on, inn, k))
+    return cases
+
+
+def nested_pred(c, i):
+    """every hash_stream / hash_file call is independent of any other call in progress on the same thread"""
+    if not i.startswith("outer "):
+        return "hashing a stream whose reader itself hashes other streams/files did not return normally: `%s`" % i[:120]
+    try:
+        o, inn = i[len("outer "):].split(" ; inner ")
+        got, want = o.split(" == ")
+        ig, iw = inn.split(" == ")
+    except ValueError:
+        return "malformed nested output"
+    if got != want:
+        return "the outer stream's result `%s` differs from hash_buf of its bytes `%s`" % (got[:80], want[:80])
+    for g in ig.split(" , "):
+        if g != iw:
+            return "a stream/file hashed from inside another reader's read() gives `%s`, hash_buf of the same bytes gives `%s`" % (g[:80], iw[:80])
+    return None
 
 
 def decide(ctx, suite, hb, scripts, impl_out):
@@ -180,6 +218,9 @@ def run(ctx):
         outs += ctx.impl_only("STREAM-BIG-IMPL", [fmt(v, sc) for v, sc in big[nmodel:]], hb, lambda c, i: None, nontrivial=nt)
     decide(ctx, "STREAM-BIG", hb, big, outs)
     ctx.suites["STREAM-BIG"]["largest_stream_bytes"] = max(len(interpret(sc)[0]) for _, sc in big)
+    # re-entrancy: a reader that itself hashes another stream and a file on the same thread while it is being hashed
+    nested = nested_cases(ctx.tier)
+    ctx.impl_only("NESTED", nested, hb, nested_pred, nontrivial=lambda c, i: "ok" in i)
     # files
     sizes = [0, 1, 49, 50, 51, 5000, BUF + 5] if ctx.tier == "quick" else [0, 1, 9, 10, 49, 50, 51, 255, 256, 5000, 65536, BUF - 1, BUF, BUF + 1, 2 * BUF + 77]
     # files beyond 100 kB cost the model ~130 us/byte twice (hash_file and hash_buf): two variants get them in thorough
